@@ -10,6 +10,7 @@ def run(tier, seed):
         out.add_pyvc(common.pyvc_run(PROVED_TARGETS, timeout_ms=10000 if tier == "quick" else 60000))
     from checks import shm_bounded
     shm_bounded.explore(out, "C09", tier, seed)
+    shm_bounded.lottery_cases(out, "C09", tier)
     out.assumptions += ["each Manager operation and each page-job callback is atomic (the unlocked read-modify-write of free_space in add vs. the locked += in callbacks is a data race no function contract sees)",
                         "EA1: the OS lets a segment be unlinked once; the fake /dev/shm raises FileNotFoundError on a second unlink as the real one does"]
     return out.finish("exploration", rule="see bounded_standins[].bound", explanation="real Manager/Disk code over a fake segment table; ground truth kept by the harness")
